@@ -29,7 +29,10 @@ RULE = ("one run = one file (size swarmed over 1, 15, 16, 17, AES-block and blob
         "create_stream on node P, served by the real BlobServer over simulated TCP with seeded re-chunking / latency / "
         "executor delays, fetched and decrypted in descriptor order by the real StreamDownloader on node D; plus 1..4 "
         "tamperings of a hash-committed descriptor field (names, key, any blob's hash / number / IV / length, order, "
-        "terminator, JSON) each served under a correctly re-hashed sd blob by node H. Non-trivial = round trip "
+        "terminator, JSON; also tamperings that keep the unseparated concatenation the stream hash covers: characters "
+        "moved across the iv/length boundary, numbers turned into strings) each served under a correctly re-hashed sd "
+        "blob by node H. Names include DEL and C1 controls (control character = Unicode category Cc). 1.5 % of runs "
+        "publish two identical chunks under a repeating IV sequence. Non-trivial = round trip "
         "completed over the network or >= 1 tampering judged; distinct = distinct event-trace digest.")
 COMPONENTS = {
     'real': ['lbry.stream.descriptor.StreamDescriptor (create_stream, make_sd_blob, from_stream_descriptor_blob, hashes, sanitize_file_name)',
